@@ -380,8 +380,10 @@ theorem spec_stack {scope : GraphM Trunk} {S : Scope} (hs : Spec True scope S) (
   rw [← hW1] at hi1
   have keep1 : ∀ q : PubRef, WB.live q.node → W1.live q.node ∧ W1.σ q = WB.σ q ∧ W1.h q.node = WB.h q.node := by
     intro q hq; rw [hW1]; exact set_keep _ _ cLB.notLive q hq
-  have cT' : Coll gB WB tO.uid tO.gid aP (pairs.map (·.1)).length (pairs.map (·.1)).length insT := by rw [hlenP]; exact cT
-  have cA' : Coll gB WB aO.uid aO.gid aP (pairs.map (·.1)).length (pairs.map (·.1)).length insA := by rw [hlenP]; exact cA
+  have cT' : Coll gB WB tO.uid tO.gid aP (pairs.map (·.1)).length (pairs.map (·.1)).length insT := by
+    have := cT; rw [← hlenP] at this; exact this
+  have cA' : Coll gB WB aO.uid aO.gid aP (pairs.map (·.1)).length (pairs.map (·.1)).length insA := by
+    have := cA; rw [← hlenP] at this; exact this
   have cT1 : Coll gB W1 tO.uid tO.gid aP (pairs.map (·.1)).length (pairs.map (·.1)).length insT := by
     refine cT'.same rfl (fun _ => rfl) (Nat.le_refl _) ?_
     rw [hW1]; intro h; rcases h with e | h
@@ -420,6 +422,188 @@ theorem spec_stack {scope : GraphM Trunk} {S : Scope} (hs : Spec True scope S) (
     exact ⟨c1, by rw [c2, b2, a2], by rw [c3, b3, a3]⟩
   have live3 : ∀ u, W3.live u ↔ (u = aO.uid ∨ u = tO.uid ∨ u = lO.uid ∨ WB.live u) := by
     intro u; rw [hW3, hW2, hW1]; exact Iff.rfl
-  sorry
+  -- everything since the head of the ensemble, as one step (ranks are accounted for separately)
+  have hAll : LoopOk (fun u => u = lO.uid ∨ u = tO.uid ∨ u = aO.uid) g.next g9 gB W9 WB (RF + gB.next) := by
+    have h1 : LoopOk (fun u => u = lO.uid ∨ u = tO.uid ∨ u = aO.uid) g.next g9 gF W9 WF (RF + gB.next) :=
+      hlF.weaken (fun _ h => h.elim) (by omega)
+    have h2 := hlO.weaken (fun _ h => h) (show RF ≤ RF + gB.next by omega)
+    have h3 : LoopOk (fun u => u = lO.uid ∨ u = tO.uid ∨ u = aO.uid) g.next gO gL WF WF (RF + gB.next) :=
+      hlL.weaken (fun _ h => Or.inl h) (by omega)
+    have h4 : LoopOk (fun u => u = lO.uid ∨ u = tO.uid ∨ u = aO.uid) g.next gL gB WF WB (RF + gB.next) :=
+      hlB.weaken (fun _ h => Or.inr h) (by omega)
+    exact ((h1.trans h2).trans h3).trans h4
+  have notColl : ∀ u, u < gF.next → ¬ (u = lO.uid ∨ u = tO.uid ∨ u = aO.uid) := by
+    intro u hu hx
+    rcases hx with e | e | e <;> rw [e] at hu
+    · exact Nat.lt_irrefl _ hu
+    · have : gF.next + 2 < gF.next := hu; omega
+    · have : gF.next + 4 < gF.next := hu; omega
+  have hfB : Frame g gB := by
+    refine ⟨by omega, ?_, ?_, ?_⟩
+    · intro u hu; rw [hAll.kind u (by omega), H.frame.kind u hu]
+    · intro u k hu; rw [hAll.input u k (by omega) (notColl u (by omega)), H.frame.input u k hu]
+    · intro gid hg; rw [hAll.trainer gid (by omega), H.frame.trainer gid hg]
+  have hagB : Agree g.next W WB := H.agree.trans hAll.agree hg9
+  have hag3 : Agree g.next W W3 := by
+    have : Agree g.next W W3 := by
+      rw [hW3, hW2, hW1]
+      exact ((hagB.set _ _ _ (by show g.next ≤ gF.next; omega)).set _ _ _ (by show g.next ≤ gF.next + 2; omega)).set _ _ _
+        (by show g.next ≤ gF.next + 4; omega)
+    exact this
+  have hlt9 : ∀ u, W9.live u → u < g9.next := fun u hu => (H.inv.liveLt u hu).1
+  have old9 : ∀ q : PubRef, W9.live q.node → W3.live q.node ∧ W3.σ q = W9.σ q ∧ W3.h q.node = W9.h q.node := by
+    intro q hq
+    have hq9 := hlt9 _ hq
+    obtain ⟨a1, a2, _⟩ := hAll.agree q.node hq9
+    obtain ⟨b1, b2, b3⟩ := keepB q (a1.mpr hq)
+    exact ⟨b1, by rw [b2]; exact hAll.agree.σ q hq9, by rw [b3, a2]⟩
+  have headB : ∀ (h : Nat) (x : Val), HeadOk g g9 W9 h x r → HeadOk g gB W3 h x r := by
+    intro h x hh
+    have hlth := hlt9 _ hh.live
+    have hnc := notColl h (by omega)
+    obtain ⟨a1, _, a3⟩ := old9 ⟨h, 0⟩ hh.live
+    refine ⟨hh.ge, ⟨by rw [hAll.kind h hlth]; exact hh.isOpen.1, by rw [hAll.input h 0 hlth hnc]; exact hh.isOpen.2⟩,
+      fun k => by rw [hAll.input h k hlth hnc]; exact hh.free k, a1, by rw [a3]; exact hh.rank, ?_⟩
+    intro i
+    obtain ⟨_, b2, _⟩ := old9 ⟨h, i⟩ hh.live
+    rw [b2]; exact hh.val i
+  -- the run
+  have hrun : Run (composeStack (pairs.map (·.1)) n splitter appender stacker reducer scope) g
+      ⟨⟨head.apply.head, aO.uid⟩, ⟨head.train.head, tO.uid⟩, ⟨head.label.head, lO.uid⟩⟩ gB := by
+    unfold composeStack
+    refine hrunH _ _ _ ?_
+    exact Run.bind rF (Run.bind (run_newWorker aS n 1 gF) (Run.bind (run_newWorker aP _ 1 _) (Run.bind (run_fork tO _)
+      (Run.bind rL (Run.bind rB (Run.pure _ _))))))
+  -- the values of the three tails
+  have kA : gB.kindOf aO.uid = some (.worker aO.gid aP (pairs.map (·.1)).length 1) := cA'.kind
+  have kT : gB.kindOf tO.uid = some (.worker tO.gid aP (pairs.map (·.1)).length 1) := cT'.kind
+  have kL : gB.kindOf lO.uid = some (.worker lO.gid aS n 1) := cLB.kind
+  have vA : W3.σ ⟨aO.uid, 0⟩ = .apply appender .none ((pairs.map (·.2)).map (baseApplyVal reducer folds.length foldSem)) := by
+    rw [hW3, set_σ_self, ← hvA, hlenP]
+    congr 1
+    apply List.map_congr_left
+    intro b hb
+    have := (hrefB b (List.mem_range.mp hb)).2.1
+    obtain ⟨a1, a2, _⟩ := keep1 _ this
+    rw [(keep2 _ a1).2.1, a2]
+  have vT : W3.σ ⟨tO.uid, 0⟩ = .apply appender .none ((pairs.map (·.2)).map (baseTrainVal stacker folds.length foldSem testV)) := by
+    rw [hW3, set_σ_other _ _ _ _ _ (by exact hne_ta), hW2, set_σ_self, ← hvT, hlenP]
+    congr 1
+    apply List.map_congr_left
+    intro b hb
+    have := (hrefB b (List.mem_range.mp hb)).1.1
+    exact (keep1 _ this).2.1
+  have vL : W3.σ ⟨lO.uid, 0⟩ = .apply stacker .none ((List.range n).map (fun k => .proj (2 * k + 1) labs)) := by
+    rw [hW3, set_σ_other _ _ _ _ _ (by exact hne_la), hW2, set_σ_other _ _ _ _ _ (by exact hne_lt), hW1, set_σ_self]
+    congr 1
+    apply List.map_congr_left
+    intro k hk
+    rw [hinsL k (List.mem_range.mp hk)]
+    exact (pubL _).val
+  refine ⟨_, gB, W3, hrun, hi3, hfB, hag3, headB _ _ H.ha, headB _ _ H.ht, headB _ _ H.hl, H.distinct, ?_,
+    ⟨(live3 _).mpr (Or.inl rfl), ?_⟩, ⟨(live3 _).mpr (Or.inr (Or.inl rfl)), ?_⟩,
+    ⟨(live3 _).mpr (Or.inr (Or.inr (Or.inl rfl))), ?_⟩, ?_, ?_, hlB.wired,
+    ⟨by show g.next ≤ gF.next + 4; omega, by show g.next ≤ gF.next + 2; omega, by show g.next ≤ gF.next; omega⟩, ?_,
+    fun h => h.elim, fun h => h.elim, fun h => h.elim, fun h => h.elim⟩
+  · -- open nodes
+    intro n' hn' hl' ho
+    rcases (live3 _).mp hl' with e | e | e | h
+    · rw [e, Graph.isOpen, kA] at ho; cases ho.1
+    · rw [e, Graph.isOpen, kT] at ho; cases ho.1
+    · rw [e, Graph.isOpen, kL] at ho; cases ho.1
+    · by_cases h9 : n' < g9.next
+      · have hl9 : W9.live n' := ((hAll.agree n' h9).1).mp h
+        have ho9 : g9.isOpen n' := by
+          refine ⟨by rw [← hAll.kind n' h9]; exact ho.1, ?_⟩
+          cases hq : g9.inputOf n' 0 with
+          | none => rfl
+          | some q => have := hAll.inputMono _ _ _ hq; rw [ho.2] at this; cases this
+        exact H.opens n' hn' hl9 ho9
+      · exact absurd ho (hAll.noOpen n' (by omega) h)
+  · rw [vA]
+    subst hfoldSem hfeats hlabs
+    simp only [denoteStack, hlenF, List.map_map]
+    rfl
+  · rw [vT]
+    subst hfoldSem htestV hfeats hlabs
+    simp only [denoteStack, hlenF, List.map_map]
+    rfl
+  · rw [vL]
+    subst hlabs
+    simp only [denoteStack]
+  · -- the trainings
+    obtain ⟨T, hT, hT1, hT2, hT3⟩ := H.trains
+    refine ⟨[T] ++ tsF ++ tsB, ?_, ?_, ?_⟩
+    · rw [htsB, htrL]
+      show gF.trains ++ tsB = _
+      rw [htsF, hT]; simp [List.append_assoc]
+    · intro x hx
+      rcases List.mem_append.mp hx with hx | hx
+      · rcases List.mem_append.mp hx with hx | hx
+        · simp only [List.mem_singleton] at hx
+          subst hx
+          exact ⟨(old9 _ hT1).1, (old9 _ hT2).1⟩
+        · obtain ⟨x1, x2⟩ := hliveF x hx
+          have e1 : x.train.node < gL.next := by have := hltF _ x1; rw [hnL, hnO]; omega
+          have e2 : x.label.node < gL.next := by have := hltF _ x2; rw [hnL, hnO]; omega
+          exact ⟨(keepB _ (((hlB.agree _ e1).1).mpr x1)).1, (keepB _ (((hlB.agree _ e2).1).mpr x2)).1⟩
+      · obtain ⟨x1, x2⟩ := hliveB x hx
+        exact ⟨(keepB _ x1).1, (keepB _ x2).1⟩
+    · rw [List.map_append, List.map_append]
+      have p1 : [T].map (trainedUnder W3) = [(splitter, .state splitter .none xt xl)] := by
+        simp only [List.map_cons, List.map_nil]
+        rw [← hT3]
+        unfold trainedUnder
+        rw [(old9 _ hT1).2.1, (old9 _ hT2).2.1]
+      have p2 : tsF.map (trainedUnder W3) = tsF.map (trainedUnder WF) := by
+        apply List.map_congr_left
+        intro x hx
+        obtain ⟨x1, x2⟩ := hliveF x hx
+        have e1 : x.train.node < gL.next := by have := hltF _ x1; rw [hnL, hnO]; omega
+        have e2 : x.label.node < gL.next := by have := hltF _ x2; rw [hnL, hnO]; omega
+        unfold trainedUnder
+        rw [(keepB _ (((hlB.agree _ e1).1).mpr x1)).2.1, (keepB _ (((hlB.agree _ e2).1).mpr x2)).2.1,
+          hlB.agree.σ _ e1, hlB.agree.σ _ e2]
+      have p3 : tsB.map (trainedUnder W3) = tsB.map (trainedUnder WB) := by
+        apply List.map_congr_left
+        intro x hx
+        obtain ⟨x1, x2⟩ := hliveB x hx
+        unfold trainedUnder
+        rw [(keepB _ x1).2.1, (keepB _ x2).2.1]
+      rw [p1, p2, p3, hmapF, hmapB]
+      subst hfoldSem hfeats hlabs
+      simp only [denoteStack, hlenF, Nat.zero_add, List.flatMap_map]
+  · -- groups of the new evaluable workers
+    intro n' hn' hl' gid a i o hk
+    rcases (live3 _).mp hl' with e | e | e | h
+    · rw [e, kA] at hk; cases hk; show g.next ≤ gF.next + 3; omega
+    · rw [e, kT] at hk; cases hk; show g.next ≤ gF.next + 3; omega
+    · rw [e, kL] at hk; cases hk; show g.next ≤ gF.next + 1; omega
+    · by_cases h9 : n' < g9.next
+      · rw [hAll.kind n' h9] at hk
+        exact H.fresh n' hn' (((hAll.agree n' h9).1).mp h) gid a i o hk
+      · exact hAll.fresh n' (by omega) h gid a i o hk
+  · -- ranks
+    intro n' hn' hl'
+    have hA3 : W3.h aO.uid = RO := by rw [hW3, set_h_self]
+    have hT3' : W3.h tO.uid = RO := by rw [hW3, set_h_other _ _ _ _ _ (by exact hne_ta), hW2, set_h_self]
+    have hL3 : W3.h lO.uid = r + 2 := by
+      rw [hW3, set_h_other _ _ _ _ _ (by exact hne_la), hW2, set_h_other _ _ _ _ _ (by exact hne_lt), hW1, set_h_self]
+    have hgL : gL.next = gF.next + 5 := by rw [hnL, hnO]
+    rcases (live3 _).mp hl' with e | e | e | h
+    · rw [e, hA3]; omega
+    · rw [e, hT3']; omega
+    · rw [e, hL3]; omega
+    · have hk3 : W3.h n' = WB.h n' := (keepB ⟨n', 0⟩ h).2.2
+      rw [hk3]
+      by_cases h9 : n' < g9.next
+      · have := H.rank n' hn' (((hAll.agree n' h9).1).mp h)
+        rw [(hAll.agree n' h9).2.1]; omega
+      · by_cases hF : n' < gL.next
+        · have hlF' : WF.live n' := ((hlB.agree n' hF).1).mp h
+          have := hlF.rank n' (by omega) hlF'
+          rw [(hlB.agree n' hF).2.1]; omega
+        · have := hlB.rank n' (by omega) h
+          omega
 
 end ForML.Compose
